@@ -253,8 +253,8 @@ fn sim_check(id: &str, tier: &str, seed: u64, args: &[String]) -> i32 {
     let mut fuzz_info = serde_json::json!({"ran": false});
     let mut failure_from_fuzz: Option<Failure> = None;
     if thorough && out.failure.is_none() && std::env::var_os("VERIF_NO_FUZZ").is_none() {
-        let runs: u64 = arg_val(args, "--fuzz-runs").and_then(|s| s.parse().ok()).unwrap_or(240_000);
-        let fz = fuzz_stage("fz_cluster", id, runs, seed, &out.acc.seed_inputs, 40 + 6 * ops.1, workers);
+        let runs: u64 = arg_val(args, "--fuzz-runs").and_then(|s| s.parse().ok()).unwrap_or(48_000);
+        let fz = fuzz_stage("fz_cluster", id, runs, seed, &out.acc.seed_inputs, 40 + 6 * ops.1.min(220), workers);
         let mut rejudged = 0;
         for a in &fz.artifacts {
             if let Ok(bytes) = std::fs::read(a) {
